@@ -1,7 +1,7 @@
 (* CollExecProofs instantiated: the collection over the intrusive list and over the address-ordered list refines the Spec *)
 From Coq Require Import ZArith NArith List Bool Lia.
 From FM Require Import Wrap GenArith ArithModel FixedStack SmallCarve PoolSpec SlotProofs ListLib PoolSpecProofs Stack Arena
-     UnorderedList UnorderedListProofs UnorderedRefine OrderedList OrderedListProofs OrderedRefine InvalidRelease SmallList SmallListProofs SmallRefine CollExec CollExecProofs CollInst CollSizes.
+     UnorderedList UnorderedListProofs UnorderedRefine OrderedList OrderedListProofs OrderedRefine InvalidRelease SmallList SmallListProofs SmallRefine CapacityProofs PoolExecProofs CollExec CollExecProofs CollInst CollSizes.
 Import ListNotations.
 Local Open Scope Z_scope.
 
@@ -319,3 +319,84 @@ Proof. intros H. exact (coll_destruction_returns_every_block _ _ _ _ _ H). Qed.
 Theorem scoll_destruction_returns_every_block s sp : SCPR s sp ->
   ar_destroy_calls (cc_ar _ s) = map (fun b => UFree (fst b) (snd b)) (a_held sp) /\ destroy_ok sp (a_held sp) = true.
 Proof. intros H. exact (coll_destruction_returns_every_block _ _ _ _ _ H). Qed.
+
+(* ---------- progress, for the collection over the intrusive list: node requests never reach an assertion ---------- *)
+Lemma ur_prog_alloc g s : UR g s -> 0 < ug_free g -> exists g' x, ugstep g UAlloc = Some (g', Some x).
+Proof.
+  intros _ Hpos. unfold ug_free, u_capacity in Hpos. cbn [ugstep]. unfold u_alloc. destruct (u_nodes (ug_l g)) as [|x tl]; [cbn in Hpos; lia|]. eexists _, _. reflexivity.
+Qed.
+Lemma ur_prog_ins g rs l m size : UR g {| us_rs := rs; us_l := l |} -> 0 < size ->
+  (forall x, In x rs -> 0 < snd (snd x) /\ (fst (snd x) + snd (snd x) <= m \/ m + size <= fst (snd x))) ->
+  exists g', ugstep g (UIns m size) = Some (g', None).
+Proof.
+  intros Hur Hsize Hdis. cbn [ugstep]. pose proof Hur as ((_ & Hns) & _).
+  assert (Hall : forallb (outside m (size / u_ns (ug_l g)) (u_ns (ug_l g))) (ulive_slots (u_ns (ug_l g)) (ug_live g) ++ u_nodes (ug_l g)) = true).
+  { apply forallb_forall. intros a Ha. destruct (known_inside _ _ _ _ Hur Ha) as (r & Hr & Hlo & Hhi). destruct (Hdis _ Hr) as [_ Hd]. cbn [snd fst] in Hd.
+    unfold outside. apply orb_true_iff. destruct Hd as [Hd|Hd]; [left; apply Z.leb_le; lia|right; apply Z.leb_le].
+    assert (size / u_ns (ug_l g) * u_ns (ug_l g) <= size) by (pose proof (Z.mul_div_le size (u_ns (ug_l g)) Hns); lia). lia. }
+  rewrite Hall. destruct (Z.leb_spec 0 size); [|lia]. cbn [andb]. eexists. reflexivity.
+Qed.
+Lemma intr_usable_eq ns size : 0 < ns -> 0 <= size < 2^64 -> intr_usable ns size = size / ns * ns.
+Proof.
+  intros Hns Hs. unfold intr_usable, free_list_usable_size.
+  assert (Hle : size / ns * ns <= size) by (pose proof (Z.mul_div_le size ns Hns); lia). assert (0 <= size / ns) by (apply Z.div_pos; lia).
+  rewrite wmul64_small.
+  - rewrite N2Z.inj_mul, N2Z.inj_div, !Z2N.id by lia. reflexivity.
+  - apply N2Z.inj_lt. rewrite N2Z.inj_mul, N2Z.inj_div, !Z2N.id by lia. change (Z.of_N (2^64)) with (2^64). lia.
+Qed.
+Lemma intr_usable_ge ns size : 0 < ns -> 0 <= size < 2^64 -> (ns <= intr_usable ns size <-> ns <= size).
+Proof.
+  intros Hns Hs. rewrite intr_usable_eq by assumption. split; intros H.
+  - pose proof (Z.mul_div_le size ns Hns). lia.
+  - assert (1 <= size / ns) by (apply Z.div_le_lower_bound; lia). nia.
+Qed.
+Lemma intr_usable_mono_ns ns ns' size : 0 <= size < 2^64 -> 0 < ns <= ns' -> ns' <= intr_usable ns' size -> ns <= intr_usable ns size.
+Proof. intros Hs Hn H. pose proof (proj1 (intr_usable_ge ns' size ltac:(lia) Hs) H) as H'. apply (proj2 (intr_usable_ge ns size ltac:(lia) Hs)). lia. Qed.
+Lemma intr_usable_mono_size ns s1 s2 : 0 <= s1 <= s2 -> s2 < 2^64 -> ns <= intr_usable ns s1 -> ns <= intr_usable ns s2.
+Proof.
+  intros Hs H2 H. destruct (Z.ltb_spec 0 ns) as [Hns|Hns].
+  - pose proof (proj1 (intr_usable_ge ns s1 Hns ltac:(lia)) H) as H'. apply (proj2 (intr_usable_ge ns s2 Hns ltac:(lia))). lia.
+  - assert (0 <= intr_usable ns s2) by (unfold intr_usable; lia). lia.
+Qed.
+
+Definition UExt (log2 : bool) := Ext ug ug_ns (coll_bkt log2) intr_usable.
+
+Theorem ucoll_alloc_node_progress log2 s sp size answer : UCPR s sp -> UExt log2 s -> 0 < size <= cc_max _ s ->
+  (forall addr, answer = Some addr -> CWB sp addr (ar_next (cc_ar _ s))) -> ar_next (cc_ar _ s) < 2^64 ->
+  exists s' r evs, uc_step log2 s (CAllocNode size answer) = Some (s', r, evs) /\ UExt log2 s'.
+Proof.
+  apply (alloc_node_progress ug ug_ns ug_free ugstep (coll_bkt log2) intr_usable LIntrusive UR ur_list ur_pos ustep_refines intr_usable_nodes ugstep_ns ur_ranges
+           ur_prog_alloc ur_prog_ins intr_usable_mono_ns intr_usable_mono_size).
+Qed.
+Theorem ucoll_try_alloc_node_progress log2 s sp size : UCPR s sp -> UExt log2 s -> 0 < size <= cc_max _ s ->
+  exists s' r evs, uc_step log2 s (CTryAllocNode size) = Some (s', r, evs) /\ UExt log2 s'.
+Proof.
+  apply (try_alloc_node_progress ug ug_ns ug_free ugstep (coll_bkt log2) intr_usable LIntrusive UR ur_list ur_pos ustep_refines intr_usable_nodes ugstep_ns ur_ranges
+           ur_prog_alloc ur_prog_ins intr_usable_mono_ns intr_usable_mono_size).
+Qed.
+Definition unode_history_ok (log2 : bool) := node_history_ok ug ug_ns ug_free ugstep (coll_bkt log2) intr_usable.
+Theorem ucoll_node_history_progress log2 os s sp : UCPR s sp -> UExt log2 s -> unode_history_ok log2 s sp os ->
+  exists s' tr sp', uc_run log2 s os = Some (s', tr) /\ run sp tr = Some sp' /\ UCPR s' sp' /\ UExt log2 s'.
+Proof.
+  apply (node_history_progress ug ug_ns ug_free ugstep (coll_bkt log2) intr_usable LIntrusive UR ur_list ur_pos ustep_refines intr_usable_nodes ugstep_ns ur_ranges
+           ur_prog_alloc ur_prog_ins intr_usable_mono_ns intr_usable_mono_size).
+Qed.
+
+Lemma c_find_map_empty ns : forall sizes, existsb (Z.eqb ns) sizes = true -> c_find ug ug_ns ns (map ug_empty sizes) <> None.
+Proof.
+  induction sizes as [|x tl IH]; cbn; [discriminate|]. unfold ug_ns at 1. cbn [ug_empty ug_l u_empty u_ns]. intros H.
+  destruct (Z.eqb_spec x ns) as [E|E]; [discriminate|]. destruct (Z.eqb_spec ns x) as [E'|E']; [congruence|]. cbn [orb] in H. apply IH. exact H.
+Qed.
+
+Theorem uc_construct_ext log2 k fence max bs answer s evs : uc_construct log2 k fence max bs answer = Some (s, true, evs) ->
+  bucket_table_okb log2 max = true -> 0 <= bs < 2^64 -> 0 <= fence -> UExt log2 s.
+Proof.
+  intros Hc Hok Hbs Hfence. unfold uc_construct in Hc. unfold bucket_table_okb in Hok. apply andb_true_iff in Hok as [Hok H3]. apply andb_true_iff in Hok as [H1 H2].
+  apply Z.ltb_lt in H1. rewrite forallb_forall in H2, H3.
+  apply (construct_ext ug ug_ns (coll_bkt log2) intr_usable LIntrusive intr_usable_nodes intr_usable_mono_ns intr_usable_mono_size _ _ _ _ _ _ _ _ _ _ _ Hc H1 Hbs Hfence).
+  intros _. split; [|split].
+  - rewrite Forall_map. rewrite Forall_forall. intros x Hx. unfold ug_ns. cbn. apply Z.leb_le. apply H2. exact Hx.
+  - rewrite map_length. destruct (coll_sizes log2 max) as [|x tl] eqn:E; [|cbn; lia]. unfold coll_max in H1. rewrite E in H1. cbn in H1. lia.
+  - intros size Hs. assert (Hin : In (Z.to_nat size) (seq 1 (Z.to_nat (coll_max log2 max)))) by (apply in_seq; lia).
+    specialize (H3 _ Hin). cbv zeta in H3. rewrite Z2Nat.id in H3 by lia. apply andb_true_iff in H3 as [Ha Hb]. split; [apply Z.leb_le; exact Ha|apply c_find_map_empty; exact Hb].
+Qed.
